@@ -24,6 +24,9 @@ func (cc *SMPPCodec) Decode(c ConnReader) ([]byte, error) {
 	}
 
 	totalLen := int(binary.BigEndian.Uint32(totalLenBytes))
+	if totalLen < smpp.MinSMPPHeaderLen {
+		return nil, ErrInvalidPacketLength
+	}
 	if c.Size() < totalLen {
 		return nil, ErrPacketNotComplete
 	}
@@ -51,6 +54,9 @@ func (cc *SMPPCodec) DecodeBlocked(c ConnReader) ([]byte, error) {
 		return nil, err
 	}
 	totalLen := int(binary.BigEndian.Uint32(totalLenBytes))
+	if totalLen < smpp.MinSMPPHeaderLen {
+		return nil, ErrInvalidPacketLength
+	}
 
 	left := make([]byte, totalLen)
 	_, err = io.ReadFull(c, left[smpp.MinSMPPHeaderLen:])
